@@ -265,3 +265,56 @@ register(Contract(
     raises=[Raises("BadPluginError"), Raises("AssertionError")],
     modifies=["self.__have_seen_first_token", SEEN, "g_reports.$list"],
 ))
+
+# ------------------------------------------------------------------------------------------------------------ MD004
+# newdocs/src/plugins/rule_md004.md: the marker of every unordered list must be the configured one (asterisk / plus / dash), or,
+# for `consistent`, the marker of the first unordered list of the document, or, for `sublist`, the marker first used at that
+# nesting level.  Spec automaton: state = (level, expected[level -> style]); a list start with marker style c at level l:
+# E = expected[l] if known, else (c if style is sublist, or consistent with nothing known yet, else expected[0]); expected[l] := E;
+# reported iff E != c; level := l + 1.  A list end: level := l - 1.  In fix mode the marker is rewritten to E's character.
+M04 = "pymarkdown/plugins/rule_md_004.py::RuleMd004."
+_R["$fields"].types.update({"RuleMd004._RuleMd004__style_type": "str", "RuleMd004._RuleMd004__actual_style_type": "Dict[int, str]",
+                            "RuleMd004._RuleMd004__current_list_level": "int",
+                            "UnorderedListStartMarkdownToken._ListStartMarkdownToken__list_start_sequence": "str"})
+D4 = "self.__actual_style_type"
+LV = "old(self.__current_list_level)"
+SEQ = "token.list_start_sequence"
+C4 = f"('asterisk' if {SEQ} == '*' else ('plus' if {SEQ} == '+' else 'dash'))"
+LEARN = "(self.__style_type == 'sublist' or (self.__style_type == 'consistent' and old(len(self.__actual_style_type)) == 0))"
+E4 = f"(old({D4}[now({LV})]) if old(now({LV}) in {D4}) else ({C4} if {LEARN} else old({D4}[0])))"
+START = "token.is_unordered_list_start"
+register(Contract(
+    key=M04 + "starting_new_file", properties=P + ["C13"],
+    ensures=["self.__current_list_level == 0",
+             f"implies(self.__style_type == 'consistent' or self.__style_type == 'sublist', len({D4}) == 0)",
+             f"implies(self.__style_type != 'consistent' and self.__style_type != 'sublist', 0 in {D4} and {D4}[0] is self.__style_type)",
+             f"is_fresh({D4})"],
+    modifies=[D4, "self.__current_list_level"]))
+register(Contract(
+    key=M04 + "next_token", properties=P + ["C09"],
+    ghost={"g_reports": "List[Any]", "g_fixreq": "List[Any]"},
+    types={"token": "UnorderedListStartMarkdownToken"},
+    calls={"self.report_next_token_error": RPK + "report_next_token_error", "self.register_fix_token_request": FIXREQ},
+    requires=["has_type(token.line_number, 'int') and has_type(token.column_number, 'int')",
+              f"implies({START}, {SEQ} == '*' or {SEQ} == '+' or {SEQ} == '-')",
+              f"set_wf({D4})", f"implies(len({D4}) > 0, 0 in {D4})",       # the first list of a document is met at level 0
+              f"implies(self.__style_type != 'consistent' and self.__style_type != 'sublist', 0 in {D4})",     # starting_new_file
+              "self.__style_type == 'consistent' or self.__style_type == 'sublist' or self.__style_type == 'asterisk' or "
+              "self.__style_type == 'plus' or self.__style_type == 'dash'"],
+    ensures=[
+        f"implies({START}, self.__current_list_level == {LV} + 1 and {LV} in {D4} and {D4}[{LV}] == {E4})",
+        f"implies({START}, forall(lambda k: implies(k != {LV}, (k in {D4}) == old(k in {D4}) and implies(k in {D4}, {D4}[k] is old({D4}[k])))))",
+        f"implies(not {START} and token.is_unordered_list_end, self.__current_list_level == {LV} - 1)",
+        f"implies(not {START} and not token.is_unordered_list_end, self.__current_list_level == {LV})",
+        f"implies(not {START}, forall(lambda k: (k in {D4}) == old(k in {D4}) and implies(k in {D4}, {D4}[k] is old({D4}[k]))) "
+        "and len(g_reports) == old(len(g_reports)) and len(g_fixreq) == old(len(g_fixreq)))",
+        f"implies({START} and not context.in_fix_mode, len(g_reports) == old(len(g_reports)) + (1 if {E4} != {C4} else 0) and len(g_fixreq) == old(len(g_fixreq)))",
+        f"implies({START} and not context.in_fix_mode and {E4} != {C4}, g_reports[len(g_reports) - 1][1] == token.line_number and "
+        "g_reports[len(g_reports) - 1][2] == token.column_number)",
+        f"implies({START} and context.in_fix_mode, len(g_fixreq) == old(len(g_fixreq)) + (1 if {E4} != {C4} else 0) and len(g_reports) == old(len(g_reports)))",
+        f"implies({START} and context.in_fix_mode and {E4} != {C4}, g_fixreq[len(g_fixreq) - 1] == "
+        f"(token, 'list_start_sequence', ('+' if {E4} == 'plus' else ('-' if {E4} == 'dash' else '*'))))",
+    ],
+    raises=[Raises("BadPluginError"), Raises("BadPluginFixError")],
+    modifies=[f"{D4}.$dict", "self.__current_list_level", "g_reports.$list", "g_fixreq.$list"],
+))
